@@ -449,6 +449,14 @@ def gen_shape(rng, forced=None):
 from p_common_msgs import EXC_MSGS
 
 
+def no_default_iters(c):
+    """several calls of the same callable share its default objects: a one-shot iterator inside a default that an earlier call
+    exhausted says nothing about the call under test"""
+    for p in c['params']:
+        if p['default'] is not None:
+            p['default'] = strip_iters(p['default'], False)
+
+
 def gen_case(rng, stream, forced=None, focus=None):
     """one case of the given stream: 'valid' | 'near' | 'malformed'; focus='varargs': a function with *args called positionally"""
     c, kind = gen_shape(rng, forced)
@@ -530,6 +538,7 @@ def gen_case(rng, stream, forced=None, focus=None):
     if (c['mode'] == 'pedantic' and kind in ('func', 'stacked', 'class_deco', 'method_direct') and not c['async']
             and not c.get('self_kw') and rng.random() < 0.12):
         c['inside'] = {'kwargs': copy.deepcopy(kwargs_full)}
+        no_default_iters(c)
     # a second function of the same name defined (and called) earlier in the same module: nothing may leak from it
     if kind in ('func', 'require_kwargs') and c['style'] == 'func' and rng.random() < 0.08:
         c['shadow'] = {'star': rng.random() < 0.7, 'args': [['int', 1]] * rng.choice([1, 2])}
@@ -689,6 +698,7 @@ def gen_history_case(rng, stream):
             break
     c['stream'] = stream
     c.pop('shadow', None)
+    no_default_iters(c)
     x = rng.choice(LEAF_FOR_LISTS)
     ann = ['gen', rng.choice(['typing', 'builtin']), 'List', [x]]
     elems = [conf(rng, x) for _ in range(rng.choice([0, 0, 1, 2]))]
@@ -1017,6 +1027,11 @@ def matcher(finding, case):
 # ------------------------------------------------------------------------------------------ the check
 def evaluate(ck, cases):
     """run implementation and model on the cases; returns list of (case, impl, decoded model or None)"""
+    for c in cases:
+        # `yield from` resumes the inner generator with next() when the value sent to the delegating generator is None:
+        # what the wrapper sees of such a send is a __next__
+        if c.get('gen') and c.get('drive') == 'yield_from':
+            c['ops'] = [['next'] if o == ['send', ['none']] else o for o in c['ops']]
     impl = ck.run_impl('w_pedantic', cases, timeout=900)
     idx = [k for k, i in enumerate(impl) if i and 'fn' in i and not cases[k].get('nomodel')]
     # the model and the oracle evaluate the REIFIED values (what the rendered objects really are: {True: .., 1.0: ..} is one item)
